@@ -75,12 +75,13 @@ func goLiteral(t types.Type, val string, qual types.Qualifier) (string, bool) {
 
 // lemmaCall builds the Go call expression `fn(args...)` from a model, for
 // lemmas whose parameters are scalars, fixed arrays or structs of scalars.
-func lemmaCall(fn *ssa.Function, inputs []NamedTerm, model map[string]string) (string, error) {
+func lemmaCall(fn *ssa.Function, inputs []NamedTerm, model map[string]string, imports map[string]string) (string, error) {
 	pkg := fn.Pkg.Pkg
 	qual := func(p *types.Package) string {
 		if p == pkg {
 			return ""
 		}
+		imports[p.Path()] = p.Name()
 		return p.Name()
 	}
 	k := 0
@@ -147,7 +148,8 @@ func lemmaCall(fn *ssa.Function, inputs []NamedTerm, model map[string]string) (s
 // ReplayLemma runs a lemma with concrete arguments against the real code via an overlay test.
 func ReplayLemma(prog *Program, fn *ssa.Function, inputs []NamedTerm, model map[string]string, workDir string) *ReplayOutcome {
 	out := &ReplayOutcome{}
-	call, err := lemmaCall(fn, inputs, model)
+	imports := map[string]string{}
+	call, err := lemmaCall(fn, inputs, model, imports)
 	if err != nil {
 		out.Reason = err.Error()
 		return out
@@ -159,7 +161,7 @@ func ReplayLemma(prog *Program, fn *ssa.Function, inputs []NamedTerm, model map[
 package %s
 
 import "testing"
-
+%s
 func TestVerifReplay(t *testing.T) {
 	defer func() {
 		if r := recover(); r != nil {
@@ -169,7 +171,7 @@ func TestVerifReplay(t *testing.T) {
 	%s
 	t.Log("REPLAY-PASSED")
 }
-`, pkgName, call)
+`, pkgName, importLines(imports), call)
 	out.TestSource = src
 	return runOverlayTest(fn.Pkg.Pkg.Path(), src, workDir, out)
 }
@@ -225,4 +227,12 @@ func runOverlayTest(pkgPath, src, workDir string, out *ReplayOutcome) *ReplayOut
 // are reported without a failing input.
 func ReplayFunc(prog *Program, fn *ssa.Function, ct *Contract, o *Obligation, model map[string]string, workDir string) *ReplayOutcome {
 	return &ReplayOutcome{Reason: "pre-state of a function contract with heap-typed parameters is not rebuilt from the model; see the falsifier lemmas of this property for concrete inputs"}
+}
+
+func importLines(imports map[string]string) string {
+	var sb strings.Builder
+	for path, name := range imports {
+		fmt.Fprintf(&sb, "import %s %q\n", name, path)
+	}
+	return sb.String()
 }
